@@ -377,9 +377,36 @@ def evaluate(e):
         return evaluate(e[1]) + evaluate(e[2])
     if e[0] == "I":
         a = evaluate(e[1])
-        a += evaluate(e[2])
+        b = evaluate(e[2])
+        before = [id(x) for x in a] if is_det(a) else None
+        try:
+            a += b
+        except ValueError:
+            # a refused in-place addition (antenna above the surface) must leave the left operand as it was
+            if before is not None and [id(x) for x in a] != before:
+                REFUSED_MUTATED.append({"expr": etoks(e), "antennas_before": len(before), "antennas_after": len(list(a)),
+                                        "heights_after": [float(x.position[2]) for x in a]})
+            raise
         return a
     return sum(evaluate(x) for x in e[1])
+
+
+REFUSED_MUTATED = []
+
+
+def report_refused(run):
+    """F23: `detector += x` refused with ValueError although x was already appended (the antenna above the surface stayed
+    inside the detector)"""
+    seen = set()
+    while REFUSED_MUTATED:
+        r = REFUSED_MUTATED.pop()
+        if r["expr"] in seen:
+            continue
+        seen.add(r["expr"])
+        run.fail_input("refused-iadd", r, observed="%d antennas before the refused +=, %d afterwards (heights %s)"
+                       % (r["antennas_before"], r["antennas_after"], r["heights_after"][-3:]),
+                       expected="a refused addition leaves the detector unchanged",
+                       what="a refused `+=` left the rejected antenna(s) inside the detector")
 
 
 def py_eval(e):
@@ -495,6 +522,36 @@ def correspondence(run):
         reqs.append("clear " + et)
         expect.append("ok " + serialize(obj2))
         descs.append(("clear", et))
+    # `combined += other` as executed on ONE object, accepted or refused (F23: a refusal leaves the object unchanged);
+    # the model's iaddExec is what C19_refused_iadd_rolls_back / C19_iadd_history_keeps_valid are about
+    for _ in range(run.scale(60, 600)):
+        st = {"id": 0, "tag": 0, "p_above": 0.0}
+        subs = [gen_tree(run, st, run.rng.randint(0, 2)) for _ in range(run.rng.randint(1, 3))]
+        c = _pyrex().detector.CombinedDetector(*[build(t_) for t_ in subs])
+        steps = []
+        for _step in range(run.rng.randint(1, 4)):
+            kind = run.rng.choice(["ant", "lst", "det", "comb"])
+            st["p_above"] = 0.5 if kind in ("ant", "lst") else 0.0      # detectors refuse above-surface antennas themselves
+            if kind == "ant":
+                other = gen_ant(run, st)
+            elif kind == "lst":
+                other = ("L", [gen_ant(run, st) for _ in range(run.rng.randint(1, 3))])
+            elif kind == "det":
+                other = gen_tree(run, st, 1, need_det=True)
+            else:
+                other = ("C", [gen_tree(run, st, 1) for _ in range(run.rng.randint(1, 2))])
+            before = serialize(c)
+            try:
+                c += build(other)
+                verdict = "ok"
+            except ValueError:
+                verdict = "refused"
+                run.count("iadd_refused")
+            reqs.append("iaddx %s %s" % (before, toks(other)))
+            expect.append("%s | %s" % (verdict, " ".join(str(a.aid) for a in c)))
+            descs.append(("iaddx", before, toks(other)))
+            steps.append((toks(other), verdict))
+            run.count("iadd_steps")
     # keyword stripping loop in isolation
     for _ in range(run.scale(40, 400)):
         acc = run.rng.sample(["require_mc_truth"] + KW_POOL + ["y"], run.rng.randint(0, 4))
@@ -574,6 +631,7 @@ def correspondence(run):
                             % (rq[:400], rp[:300], exs[:300]))
             if len(run.broken) > 6:
                 break
+    report_refused(run)
     return ok
 
 
@@ -719,6 +777,7 @@ def search(run, deep):
         if any(x.is_hit or x.is_hit_mc_truth for x in obj) or still:
             run.fail_input("clear", {"a": etoks(a), "b": etoks(b), "c": etoks(c)},
                            what="clear() left an antenna hit")
+    report_refused(run)
 
 
 def _expr_all_default(e):
@@ -889,6 +948,9 @@ def replay(run, data):
         why = oracle_case(run, e)
         if why:
             run.fail_input("expr", inp, observed=why, what=why)
+    elif data["kind"] == "refused-iadd":
+        py_eval(parse_expr(inp["expr"].split())[0])
+        report_refused(run)
     elif data["kind"] == "history":
         why = None
         for _ in range(20):   # the antennas drawn differ, the step sequence is what matters
